@@ -9,9 +9,13 @@ CLAIMED = {
   "Coq theorems over a statement-level Gallina model of d_string.c (raw buffer, size_t wrap-around, bounds-checked libc primitives): refinement to the ideal string, invariant over all histories, no out-of-bounds access, termination of replace; the model is tied to the code by differential execution (extracted model vs d_string.c under ASan/UBSan) on boundary-value operation sequences.",
   "Trusted: Coq kernel, extraction, harness/dstring.c, libc primitives as modelled, realloc succeeds, NUL-free payloads.",
   "Coq proof (refinement + invariant induction) over hand model, tied by extracted-model-vs-implementation correspondence"),
+ "C18": ("proof",
+  "Coq theorems over a Gallina state machine transcribed from token.c/object_pool.c (pool pointer, use count, slab stack, bump pointer and one-past-the-end sentinel, malloc/free as a fresh-block oracle): every well-bracketed history runs without NULL dereference, every allocation is fresh and inside a live slab, no slab is freed while the count is positive, everything is released when the count returns to zero, and any clean state behaves like the initial one. Tied to the code through hook H1 and a harness that runs histories (all well-bracketed ones up to a length bound, random ones beyond, allocation batches around the 1024-object slab boundary, real conversions) under ASan and compares the observable pool state after every call with the extracted model.",
+  "Trusted: Coq kernel, extraction, harness/pool.c + hook H1, malloc succeeds and returns fresh blocks; stack.c (slab stack growth) and the C short counter wrap are not modelled; that conversion output does not depend on token addresses is tested (output hash vs fresh process), not proved.",
+  "Coq proof (invariant induction over histories + two-state simulation) over hand model, tied by extracted-model-vs-implementation correspondence"),
 }
 NOT_YET = "no check built yet in this commit (work proceeds in the order of DESIGN.md section 9); not claimed"
-HOOK_COMMITS = []
+HOOK_COMMITS = ["f9ed9e1"]
 
 def main():
     checks = []
